@@ -28,7 +28,9 @@ fn sun_tol_s(t_cy: f64) -> f64 {
 }
 /// tolerance of the Meeus new-moon series against the library's precise conjunction (TT vs TT)
 fn moon_tol_s(t_cy: f64) -> f64 {
-  60.0 + 6.0 * t_cy * t_cy
+  // re-measured with `--aux moonres` over every lunation of years 0..5000: 18.5 s near the present, 45.3 s in the first
+  // centuries AD, 40.4 s around AD 4600 (was 60 s + 6 s/cy^2, far looser than the theory warrants)
+  28.0 + 0.08 * t_cy * t_cy
 }
 
 fn lunation_first_jd(p: usize) -> f64 {
@@ -84,8 +86,10 @@ impl C05 {
     if d > PI {
       d -= 2.0 * PI;
     }
-    if !(d.abs() <= 2.0 * ARCSEC) {
-      out.fail(env, viol("sun", "own_series_not_at_target", case, &[("ty", y), ("ti", i)], format!("term {}#{}", y, i), format!("library apparent longitude == {} deg within 2\"", target), format!("{:.3}\" off", d / ARCSEC)));
+    // (measured maximum over -1000..5000: 0.0084"; the conversion UT -> TT uses the continuous dt_calc, so a TT-UT that is
+    // applied differently from how it is tabulated shows up here)
+    if !(d.abs() <= 0.1 * ARCSEC) {
+      out.fail(env, viol("sun", "own_series_not_at_target", case, &[("ty", y), ("ti", i)], format!("term {}#{}", y, i), format!("library apparent longitude == {} deg within 0.1\"", target), format!("{:.3}\" off", d / ARCSEC)));
     }
   }
 
@@ -233,6 +237,12 @@ impl C05 {
       out.nontrivial("dt", &[case.a[0]]);
       out.sample("dt", true, || json!({"year": y, "delta_t": a, "delta_t_0.01y_later": b}));
     }
+    // the correction as it is applied to instants (dtt, argument in days from J2000) is the same smooth function
+    let td = (y - 2000.0) * 365.2425;
+    let (a2, b2) = (U::dtt(td) * 86400.0, U::dtt(td + 0.01 * 365.2425) * 86400.0);
+    if !a2.is_finite() || (b2 - a2).abs() >= 6.0 || (a2 - a).abs() > 1.0 {
+      out.fail(env, viol("dt", "applied_delta_t_jump_or_differs_from_table", case, &[("y100", case.a[0])], format!("dtt at year {:.2} and {:.2}", y, y + 0.01), format!("step < 6 s and within 1 s of dt_calc = {:.2} s", a), format!("{:.2} s -> {:.2} s", a2, b2)));
+    }
     if !a.is_finite() || !b.is_finite() || (b - a).abs() >= 6.0 {
       out.fail(env, viol("dt", "delta_t_jump", case, &[("y100", case.a[0])], format!("Delta T at {:.2} and {:.2}", y, y + 0.01), "finite, step < 6 s".into(), format!("{} -> {}", a, b)));
     }
@@ -288,7 +298,7 @@ impl Prop for C05 {
   }
   fn meta(&self, env: &Env) -> Meta {
     Meta {
-      rule: format!("Sub-checks: `sun` every term (24 x 251) of 1900..2150 through the UT chain (library instant UTC+8 -> UT -> TT with the Espenak-Meeus Delta T) and {} through TT (library's own Delta T, so Delta T models do not enter): Meeus ch.25 apparent longitude at that instant equals 270+15k deg within the theory's accuracy (1800 s + 1 s/cy^2, about twice the measured maximum over every term of -1000..5000), and the library's own longitude series is at the target within 2 arcsec; `moon` every lunation of 1900..2150 (with civil-day agreement) and {}: library precise conjunction vs Meeus ch.49 (25 periodic + 14 planetary terms) within 60 s + 6 s/cy^2; `pathterm` every term 1961..9999 (192,936): calendar-making day == UTC+8 civil day of the precise instant; `pathmoon` every lunation 1961..8000: first day == civil day of the precise conjunction; `inverse_sun`/`inverse_moon`: all exact multiples of pi/12 resp. 2pi over +-10,000 years and proptest f64 targets: |series(solver(w)) - w| <= 1 arcsec; `dt`: Delta T finite with steps < 6 s per 0.01 y over -4000..10000 ({}); `pure`: proptest queries (term instants, Delta T, day-level and precise solvers) answered on a thread with a long random history are bit-identical to the same query alone on a brand-new thread. Non-trivial: events within 20 (30) minutes of local midnight; exact-multiple targets; Delta T table joins.", env.tier.pick("every term of every 10th year in -1000..5000", "every term of every year in -1000..5000"), env.tier.pick("every 7th lunation of -1000..5000", "every lunation of -1000..5000"), env.tier.pick("every 0.05 y plus +-0.5 y around each table join at 0.01 y", "every 0.01 y")),
+      rule: format!("Sub-checks: `sun` every term (24 x 251) of 1900..2150 through the UT chain (library instant UTC+8 -> UT -> TT with the Espenak-Meeus Delta T) and {} through TT (library's own Delta T, so Delta T models do not enter): Meeus ch.25 apparent longitude at that instant equals 270+15k deg within the theory's accuracy (1800 s + 1 s/cy^2, about twice the measured maximum over every term of -1000..5000), and the library's own longitude series is at the target within 0.1 arcsec; `moon` every lunation of 1900..2150 (with civil-day agreement) and {}: library precise conjunction vs Meeus ch.49 (25 periodic + 14 planetary terms) within 28 s + 0.08 s/cy^2; `pathterm` every term 1961..9999 (192,936): calendar-making day == UTC+8 civil day of the precise instant; `pathmoon` every lunation 1961..8000: first day == civil day of the precise conjunction; `inverse_sun`/`inverse_moon`: all exact multiples of pi/12 resp. 2pi over +-10,000 years and proptest f64 targets: |series(solver(w)) - w| <= 1 arcsec; `dt`: Delta T finite with steps < 6 s per 0.01 y over -4000..10000 ({}); `pure`: proptest queries (term instants, Delta T, day-level and precise solvers) answered on a thread with a long random history are bit-identical to the same query alone on a brand-new thread. Non-trivial: events within 20 (30) minutes of local midnight; exact-multiple targets; Delta T table joins.", env.tier.pick("every term of every 10th year in -1000..5000", "every term of every year in -1000..5000"), env.tier.pick("every 7th lunation of -1000..5000", "every lunation of -1000..5000"), env.tier.pick("every 0.05 y plus +-0.5 y around each table join at 0.01 y", "every 0.01 y")),
       assumptions: vec![
         "Independent theory: Meeus ch. 25 low-accuracy Sun (0.01 deg), ch. 49 new moons, Espenak-Meeus Delta T; a perturbation of the library below that accuracy (about 15 min Sun, 40 s Moon) is invisible to `sun`/`moon` and only seen by `pathterm`/`pathmoon` when it moves an event across midnight on one path only".into(),
         "Beyond AD 8000 the truncated lunar solver leaves its guard band; the property excludes those lunations from day agreement".into(),
@@ -418,6 +428,45 @@ impl Prop for C05 {
   }
   fn aux(&self, _env: &Env, name: &str, _arg: &str) -> i32 {
     // calibration aid: maximum lunar inverse-solver residual per millennium over a dense grid of targets
+    if name == "moonres" {
+      // calibration aid: maximum |library conjunction - Meeus ch.49| in seconds per 250 years, and the maximum own-series
+      // residual of the term instants in arcsec
+      let l = lunlist();
+      let mut bins: std::collections::BTreeMap<i64, f64> = std::collections::BTreeMap::new();
+      for p in 0..l.len() {
+        let (ly, _) = l.at(p);
+        if ly < -1000 || ly > 5000 { continue; }
+        let first = lunation_first_jd(p);
+        let lib_jde = lib_conjunction_tt(first) + 2451545.0;
+        let k = ((first - 2451550.09766) / 29.530588861).round();
+        let mut best = f64::MAX;
+        for dk in [-1.0, 0.0, 1.0] {
+          let j = astro::new_moon(k + dk);
+          if (j - lib_jde).abs() < best { best = (j - lib_jde).abs(); }
+        }
+        let b = ly.div_euclid(250) * 250;
+        let e = bins.entry(b).or_insert(0.0);
+        if best * 86400.0 > *e { *e = best * 86400.0; }
+      }
+      for (b, v) in &bins {
+        println!("lunations of years {}..{}: max |lib - Meeus| {:.1} s (tolerance now {:.0} s)", b, b + 249, v, moon_tol_s((*b as f64 + 125.0 - 2000.0) / 100.0));
+      }
+      let mut mx = 0.0f64;
+      for y in (-1000i64..=5000).step_by(7) {
+        for i in 0..24 {
+          let t = SolarTerm::from_index(y as isize, i as isize);
+          let jd_local = t.get_julian_day().get_day();
+          let yy = 2000.0 + (jd_local - 2451545.0) / 365.2425;
+          let tt_lib = (jd_local - 8.0 / 24.0 + U::dt_calc(yy) / 86400.0 - 2451545.0) / 36525.0;
+          let tgt = (270.0 + 15.0 * i as f64).rem_euclid(360.0) * PI / 180.0;
+          let mut d = (U::sa_lon(tt_lib, -1) - tgt).rem_euclid(2.0 * PI);
+          if d > PI { d -= 2.0 * PI; }
+          if d.abs() / ARCSEC > mx { mx = d.abs() / ARCSEC; }
+        }
+      }
+      println!("own-series residual of term instants, max over -1000..5000: {:.4} arcsec", mx);
+      return 0;
+    }
     if name == "sunscan" {
       // calibration aid: maximum |theory - target| in seconds per 250 years for both modes
       for mode in [0i64, 1] {
